@@ -191,6 +191,10 @@ func (c *Ctx) Batch(jobs []Job, observe func(j Job, r *Run, fs []Finding)) {
 			for ij := range in {
 				j := ij.Job
 				r := c.Env.RunBin(c.binFor(j.Rig), w, j.S)
+				if r.Exit == 96 {
+					// the child refused its scenario or environment: the simulator's own mistake
+					harnessFail("child exit 96 for scenario seed %d (%s): %s", j.S.Seed, j.Tag, firstLines(r.StderrText(), 3))
+				}
 				// determinism probe: one scenario in 64 is executed a second time in another worker
 				// directory; event log, de-framed stdout and exit status must be identical
 				if long, _ := j.S.Rig["long"].(bool); !long && (uint64(ij.i)*2654435761>>8)%recheckEvery == 0 && !r.TimedOut {
